@@ -141,7 +141,7 @@ impl Check for C05 {
     fn cases(&self, tier: Tier) -> u64 {
         match tier {
             Tier::Quick => 1500,
-            Tier::Thorough => 60_000,
+            Tier::Thorough => 20_000,
         }
     }
     fn run_case(&self, ctx: &mut CaseCtx) {
